@@ -313,13 +313,15 @@ def _reset(env):
 # A program is {'jobs': [job...], 'rev': bool}.  job = {'type': 'B'|'P', 'out': ..., 'wout': bool,
 # 'reads': [[source, form], ...]} ; source = input name | input-group name | index of an earlier job.
 #   B out: 'none' | 'file' | 'ext-pre' | 'ext-post' | 'ext-last' | 'group'
-#   P out: 'res' | 'str'
+#   P out: 'res' | 'str';  optional 'conv': conversions (as_str / as_repr / as_json) requested on the result, 'conv2': a
+#          second call() whose result gets these conversions, 'wconv': [[which, conv], ...] conversions written out
 #   forms: 'f' (single file)  'g' (whole group)  'a' / 'b' (group member)  'res' (PythonResult)  'str' (its as_str file)
 # Extended features (all optional): job['out2'] = 'file' | 'group' gives a bash job a SECOND output (ofile2 / og2);
 # a read may be [source, form, which] with which = 0 | 1 selecting the producer's output; the same producer (and the
 # same resource) may be read more than once; job['split'] puts the first read in one command() call and the rest in a
 # second one; job['dep_first'] issues consumer.depends_on(producer) for every producer it reads BEFORE its command.
 
+CONVS = ('str', 'repr', 'json')
 B_OUTS = ('none', 'file', 'ext-pre', 'ext-post', 'ext-last', 'group')
 P_OUTS = ('res', 'str')
 
@@ -416,14 +418,14 @@ def build_and_run(prog):
             o = outs[src]
             if isinstance(o, list):
                 o = o[which]
+            elif which:
+                o = o[which]      # python job: the result of its second call
             if form in ('f', 'g'):
                 return o
             if form in ('a', 'b'):
                 return o[form]
-            if form == 'res':
-                return o['res']
-            if form == 'str':
-                return o['str']
+            if form in ('res',) + CONVS:
+                return o[form]
             raise HarnessError(form)
         o = input_obj(src)
         if form in ('f', 'g'):
@@ -488,8 +490,13 @@ def build_and_run(prog):
                 _shape_arg(shapes[i], ref_obj(src, form, which), args, kwargs, i)
             r = j.call(_pyfn, *args, **kwargs)
             outs[k] = {'res': r}
-            if sp['out'] == 'str':
-                outs[k]['str'] = r.as_str()
+            for c in sp.get('conv', ['str'] if sp['out'] == 'str' else []):
+                outs[k][c] = getattr(r, 'as_' + c)()
+            if 'conv2' in sp:
+                r2 = j.call(_pyfn, 'CALL2')
+                outs[k][1] = {'res': r2}
+                for c in sp['conv2']:
+                    outs[k][1][c] = getattr(r2, 'as_' + c)()
             pyargs[k] = [('read', i) for i in range(len(reads))]
     for j in late_ext:
         j.ofile.add_extension('.txt')
@@ -501,6 +508,8 @@ def build_and_run(prog):
             else:
                 o = o[0]
             b.write_output(o, f'gs://out/final/w{k}')
+        for which, c in sp.get('wconv', ()):
+            b.write_output(ref_obj(k, c, which), f'gs://out/final/w{k}_{which}_{c}')
 
     with contextlib.redirect_stdout(io.StringIO()):
         b.run(wait=False, disable_progress_bar=True)
@@ -564,7 +573,8 @@ def judge(prog, bt):
     specs = prog['jobs']
     n = len(specs)
     viol = []
-    stats = {'reads': 0, 'quoted': 0, 'group_reads': 0, 'py_reads': 0, 'staged': 0, 'same_twice': 0, 'two_of_one_producer': 0}
+    stats = {'reads': 0, 'quoted': 0, 'group_reads': 0, 'py_reads': 0, 'staged': 0, 'same_twice': 0, 'two_of_one_producer': 0,
+             'conv_written': 0}
 
     def bad(sig, msg):
         if not any(s == sig for s, _ in viol):
@@ -614,6 +624,8 @@ def judge(prog, bt):
                     except Exception:  # noqa: BLE001
                         continue
                     if isinstance(obj, tuple) and len(obj) == 2 and isinstance(obj[0], list) and isinstance(obj[1], dict):
+                        if obj[0][:1] == [('value', 'CALL2')]:
+                            continue   # the argument file of the job's second call
                         arg_files.append((src, dst, obj))
             if any(src in bt.fs.clobbered for src, _ in _files(kw.get('input_files'))):
                 bad('distinct-resources-share-remote-path', f'job {k} downloads {sorted(bt.fs.clobbered)}, which the client '
@@ -815,6 +827,19 @@ def judge(prog, bt):
                     if which == 0 and specs[k].get('wout') and not upload_dests(k, ppath):
                         not_uploaded(k, ppath)
 
+        # converted PythonResult files that are written out: their local path is the source of the upload to the
+        # write_output destination, and the job's script must write that path
+        if specs[k]['type'] == 'P':
+            pscript = bt.rec[k].kw['command'][2].replace('${BATCH_TMPDIR}', tmp[k])
+            for which, c in specs[k].get('wconv', ()):
+                dest = f'gs://out/final/w{k}_{which}_{c}'
+                for s_, d in _files(bt.rec[k].kw.get('output_files')):
+                    if d == dest:
+                        stats['conv_written'] += 1
+                        note(('job', k, which, c), local=s_)
+                        if s_ not in pscript:
+                            bad('producer-path-not-uploaded', f'python job {k} uploads {s_} to {dest}, a path its script never writes')
+
     # ---- distinct resources never share a path -------------------------------------------------------------
     seen = {}
     for res, paths in sorted(local_of.items(), key=repr):
@@ -843,7 +868,7 @@ def run_case(prog):
         # the DSL refused the program (e.g. a repaired add_extension that refuses late calls): nothing was
         # submitted, so there is nothing to judge
         return [], {'reads': 0, 'quoted': 0, 'group_reads': 0, 'py_reads': 0, 'staged': 0, 'same_twice': 0,
-                    'two_of_one_producer': 0, 'rejected': 1, 'why': str(e)}
+                    'two_of_one_producer': 0, 'conv_written': 0, 'rejected': 1, 'why': str(e)}
     viol, stats = judge(prog, bt)
     stats['rejected'] = 0
     return viol, stats
@@ -984,6 +1009,11 @@ def plan(tier):
                        'python consumer reading one reference (every form) in every shape, both creation orders; and two '
                        'producers -> python consumer reading one reference from each, every pair of shapes'
                        + ('' if quick else ', both creation orders')})
+    pl.append({'gen': 'conv', 'n': 3, 'args': (quick,), 'shards': 4,
+               'what': 'PythonResult conversions: every subset (>= 2) of {as_str, as_repr, as_json} on ONE result, each conversion '
+                       'consumed (by one bash job / one python job / split commands / one bash job each), written with '
+                       'write_output, or both; every pair of non-empty conversion sets on two results of one job and on the '
+                       'results of two jobs, all consumed by one bash job'})
     # job naming: names feed the scratch directory of every job resource, so every naming scheme is crossed with a
     # thinned program space in which all producers use the same resource identifiers (ofile / og / result1)
     named2 = (2, full, (None,), (False,))
@@ -1015,9 +1045,50 @@ def shape_programs(prod, quick):
                                 yield {'jobs': [p0, p1, dict(cons, reads=[list(r0), list(r1)], shapes=[s0, s1])], 'rev': rev}
 
 
+def _subsets(xs, lo):
+    return [list(c) for r in range(lo, len(xs) + 1) for c in itertools.combinations(xs, r)]
+
+
+def conv_programs(quick):
+    """Several conversions (as_str / as_repr / as_json) of PythonResults in one batch."""
+    # (a) every subset (size >= 2) of conversions of ONE result; every conversion is consumed, written out, or both
+    for S in _subsets(CONVS, 2):
+        for uses in itertools.product(('read', 'write', 'both'), repeat=len(S)):
+            rd = [c for c, u in zip(S, uses) if u in ('read', 'both')]
+            wr = [[0, c] for c, u in zip(S, uses) if u in ('write', 'both')]
+            p0 = {'type': 'P', 'out': 'res', 'wout': False, 'reads': [], 'conv': S, 'wconv': wr}
+            if not rd:
+                yield {'jobs': [p0], 'rev': False}
+                continue
+            for ctype in ('B', 'P'):
+                cons = {'type': ctype, 'out': 'none' if ctype == 'B' else 'res', 'wout': False}
+                for rev in (False, True):
+                    yield {'jobs': [p0, dict(cons, reads=[[0, c, 0] for c in rd])], 'rev': rev}
+                    if len(rd) >= 2 and ctype == 'B':
+                        yield {'jobs': [p0, dict(cons, reads=[[0, c, 0] for c in rd], split=True)], 'rev': rev}
+            if len(rd) >= 2:   # one bash consumer per conversion
+                yield {'jobs': [p0] + [{'type': 'B', 'out': 'none', 'wout': False, 'reads': [[0, c, 0]]} for c in rd[:2]],
+                       'rev': False}
+    # (b) two results of the same job, (c) results of two jobs: every pair of non-empty conversion sets, all consumed by
+    # one bash job
+    for S1 in _subsets(CONVS, 1):
+        for S2 in _subsets(CONVS, 1):
+            cons = {'type': 'B', 'out': 'none', 'wout': False}
+            p = {'type': 'P', 'out': 'res', 'wout': False, 'reads': [], 'conv': S1, 'conv2': S2}
+            yield {'jobs': [p, dict(cons, reads=[[0, c, 0] for c in S1] + [[0, c, 1] for c in S2])], 'rev': False}
+            if not quick:
+                yield {'jobs': [dict(p, wconv=[[0, S1[0]], [1, S2[0]]]), dict(cons, reads=[[0, c, 0] for c in S1[1:]] + [[0, c, 1] for c in S2])],
+                       'rev': True}
+            pa = {'type': 'P', 'out': 'res', 'wout': False, 'reads': [], 'conv': S1}
+            pb = {'type': 'P', 'out': 'res', 'wout': False, 'reads': [], 'conv': S2}
+            yield {'jobs': [pa, pb, dict(cons, reads=[[0, c, 0] for c in S1] + [[1, c, 0] for c in S2])], 'rev': False}
+
+
 def plan_programs(entry):
     if entry['gen'] == 'base':
         return programs(*entry['args'])
+    if entry['gen'] == 'conv':
+        return conv_programs(*entry['args'])
     if entry['gen'] == 'shapes':
         return shape_programs(*entry['args'])
     if entry['gen'] == 'named':
@@ -1046,16 +1117,18 @@ def _work(item):
     entry = plan(tier)[pi]
     res = {'evals': 0, 'viol': {}, 'reads': 0, 'quoted': 0, 'group_reads': 0, 'py_reads': 0, 'staged': 0,
            'same_twice': 0, 'two_of_one_producer': 0, 'dep_first': 0, 'split': 0,
-           'with_read': 0, 'rejected': 0, 'samples': [], 'ext': entry['gen'] != 'base', 'named': 0, 'shaped': 0}
+           'with_read': 0, 'rejected': 0, 'samples': [], 'ext': entry['gen'] != 'base', 'named': 0, 'shaped': 0, 'multi_conv': 0, 'conv_written': 0}
     for i, prog in enumerate(plan_programs(entry)):
         if i % nshards != shard:
             continue
         viol, stats = run_case(prog)
         res['evals'] += 1
-        for k in ('reads', 'quoted', 'group_reads', 'py_reads', 'staged', 'rejected', 'same_twice', 'two_of_one_producer'):
+        for k in ('reads', 'quoted', 'group_reads', 'py_reads', 'staged', 'rejected', 'same_twice', 'two_of_one_producer',
+                  'conv_written'):
             res[k] += stats[k]
         if stats['rejected']:
             continue
+        res['multi_conv'] += any(len(j.get('conv', ())) + len(j.get('conv2', ())) >= 2 for j in prog['jobs'])
         res['named'] += prog.get('names', 'default') != 'default'
         res['shaped'] += sum(sh != 'pos' for j in prog['jobs'] for sh in j.get('shapes', ()))
         res['dep_first'] += any(j.get('dep_first') for j in prog['jobs'])
@@ -1080,7 +1153,7 @@ def check(tier, seed, procs):
         items += [(tier, pi, s, entry['shards']) for s in range(entry['shards'])]
     rows = par.pmap(_work, par.rotate(items, seed), procs, chunksize=1)
     keys = ('evals', 'reads', 'quoted', 'group_reads', 'py_reads', 'staged', 'with_read', 'rejected', 'same_twice',
-            'two_of_one_producer', 'dep_first', 'split', 'named', 'shaped')
+            'two_of_one_producer', 'dep_first', 'split', 'named', 'shaped', 'multi_conv', 'conv_written')
     tot = {k: sum(r[k] for r in rows) for k in keys}
     best = {}
     for r in rows:
@@ -1116,11 +1189,13 @@ def check(tier, seed, procs):
         'programs_with_reads_split_over_two_commands': tot['split'],
         'programs_with_non_default_job_names': tot['named'],
         'python_reads_in_a_non_positional_shape': tot['shaped'],
+        'programs_with_several_conversions_of_python_results': tot['multi_conv'],
+        'converted_result_files_written_with_write_output': tot['conv_written'],
         'job_naming_schemes': list(NAME_SCHEMES),
     }
     vac = None
     for k in ('reads', 'quoted', 'group_reads', 'py_reads', 'staged', 'with_read', 'same_twice', 'two_of_one_producer',
-              'dep_first', 'split', 'named', 'shaped'):
+              'dep_first', 'split', 'named', 'shaped', 'multi_conv', 'conv_written'):
         if tot[k] == 0:
             vac = f'counter {k} is zero'
     return {
